@@ -366,6 +366,33 @@ func vfC08(c *hx.Ctx) {
 		c.Explore("concurrent/"+cf.name, map[string]any{"threads": nthreads, "calls_per_thread": 2}, hx.Pick(c, 2, 3), run)
 		hx.NoCache = saved
 	}
+	vfC08Sessions(c)
+}
+
+// vfC08Sessions: the ciphers as the sessions use them. Every datagram either end of a real session pair hands to its socket
+// (data, acknowledgements, FEC parity, out-of-band), for every cipher x FEC {off, 2/1, 3/2} and every fate vector over the
+// first K datagrams, must open under the independent implementation (crypto/cipher CFB with the fixed IV + CRC32, x/crypto
+// salsa20, cipher.NewGCM with the nonce the datagram carries) - what another implementation of the protocol would do.
+func vfC08Sessions(c *hx.Ctx) {
+	ciphers := []string{"aes-gcm", "aes-128", "salsa20", "blowfish"}
+	if !c.Quick() {
+		ciphers = []string{"aes-gcm", "aes-128", "aes-192", "aes-256", "sm4", "twofish", "3des", "cast5", "blowfish", "tea", "xtea", "salsa20", "xor", "none"}
+	}
+	c.ByUnit = true
+	for _, ciph := range ciphers {
+		for _, fec := range [][2]int{{0, 0}, {2, 1}, {3, 2}} {
+			cf := vfPairCfg{Cipher: ciph, DS: fec[0], PS: fec[1], SDS: -1, Stream: true, NoDelay: [4]int{1, 10, 2, 1}, Writes: []int{300, 1300, 50}, WritesBack: []int{100, 700}, ReadBuf: 4096,
+				Pool: vrt.PoolEager, Preempt: 1, Switch: 1, Select: 1, Wire: true, Owners: []string{"C08:"}, K: hx.Pick(c, 3, 4), HorizonS: 60}
+			body := func(p *vfPair) {
+				if fec[0] > 0 {
+					p.client.SendOOB(vfPayload(8, 40, 0))
+				}
+				vfStdBody(p)
+			}
+			c.UnitBudget = hx.Pick(c, 4*time.Second, 20*time.Second)
+			c.Explore(fmt.Sprintf("session-datagrams/cipher=%s/fec=%d,%d", ciph, fec[0], fec[1]), vfPairParams(cf, 0), 0, vfPairRun(cf, 0, body))
+		}
+	}
 }
 
 func init() { hx.Register("C08", vfC08) }
